@@ -219,7 +219,18 @@ static void one_pass(const plan_t *p, int pass)
                 if (!memchr(b, 0, CONFIG_BUFF)) sim_fail("INVARIANT(expand-terminated)", "result is not NUL-terminated within the line buffer");
                 rl = strlen(b);
                 if (rl >= CONFIG_BUFF) sim_fail("INVARIANT(expand-length)", "result is %zu characters", rl);
-                if (want.n >= CONFIG_BUFF - 1) { probe_hit("result_hits_limit"); dont_care = 1; }      /* truncation point is not specified */
+                if (want.n >= CONFIG_BUFF - 1) {
+                    /* the text the rules define does not fit: where exactly it is cut is not specified, but what is
+                       returned has to be a beginning of it, not something else */
+                    probe_hit("result_hits_limit");
+                    if (!dont_care) {
+                        size_t d = 0;
+                        while (d < rl && d < want.n && b[d] == want.b[d]) d++;
+                        if (d != rl) sim_fail("MISMATCH(expand-cut)", "expanding \"%.40s...\" (result cut at the limit) gave %zu characters that are not a beginning of the text the rules define: first difference at %zu", (const char *)o->s, rl, d);
+                        probe_hit("cut_result_is_a_prefix");
+                    }
+                    dont_care = 1;
+                }
                 if (!dont_care) {
                     probe_hit("value_checked");
                     if (rl != want.n || memcmp(b, want.b, rl)) {
